@@ -22,6 +22,7 @@ META = {
                  'er exception paths; effect inventory',
 }
 META['text'] += ' The warning template is a constant (the failure text is only substituted into it); printers that take the trailing comment through **kwargs are covered (signature objects with .parameters and .bind).'
+META['text'] += ' Round 5: (e) a printer enters the live registry only as partial(<wrapper>, fn); the promotion write of the lookup is allowed under that condition.'
 
 
 def run(repo, rep):
